@@ -7,7 +7,7 @@ import sys
 from . import progs, ast_io, terms
 from .terms import g_str, g_list, g_nat, g_term
 
-IMPORTS = ['Lang.Ast', 'Sem.Machine', 'Sem.Sld', 'Sem.RunSem']
+IMPORTS = ['Lang.Ast', 'Sem.Machine', 'Sem.Sld', 'Sem.SldR', 'Sem.RunSem']
 DEPTH = 30
 LIMIT = 150
 CAP = 1500
@@ -42,7 +42,16 @@ def canon_answers(answers):
 def source_of(case):
     return case.get('source') or ast_io.program_text(case['clauses'])
 
+class QueryBudget(Exception):
+    pass
+
+def _budget_alarm(signum, frame):
+    raise QueryBudget()
+
+QUERY_BUDGET = 1.5      # seconds of search per query on the implementation; a query that needs more is not compared
+
 def run_queries(yp, case, T_factory=None):
+    import signal
     from yldprolog import engine as E
     out = []
     for q in case['queries']:
@@ -53,25 +62,40 @@ def run_queries(yp, case, T_factory=None):
         end = 'done'
         n = 0
         g = None
+        # per-query search budget: the enclosing per-case timer of the runner is suspended and re-armed afterwards
+        outer_left, _ = signal.getitimer(signal.ITIMER_REAL)
+        outer_handler = signal.signal(signal.SIGALRM, _budget_alarm)
+        signal.setitimer(signal.ITIMER_REAL, QUERY_BUDGET)
         try:
-            g = yp.query(q[0], objs)
-            for _ in g:
-                n += 1
-                if n <= LIMIT:
-                    answers.append([terms.term_obs(T.read(T.vars[i])) for i in range(nq)])
-                if n >= CAP:
-                    end = 'cap'
-                    break
-        except RecursionError:
-            end = 'raised RecursionError'
-        except Exception as e:
-            end = 'raised %s' % type(e).__name__
+            try:
+                g = yp.query(q[0], objs)
+                for _ in g:
+                    n += 1
+                    if n <= LIMIT:
+                        answers.append([terms.term_obs(T.read(T.vars[i])) for i in range(nq)])
+                    if n >= CAP:
+                        end = 'cap'
+                        break
+            except QueryBudget:
+                end = 'budget'
+            except RecursionError:
+                end = 'raised RecursionError'
+            except Exception as e:
+                end = 'raised %s' % type(e).__name__
+            finally:
+                signal.setitimer(signal.ITIMER_REAL, 0)
+        except QueryBudget:
+            end = 'budget'
         finally:
+            signal.setitimer(signal.ITIMER_REAL, 0)
             if g is not None and hasattr(g, 'close'):
                 try:
                     g.close()
                 except Exception:
                     pass
+            signal.signal(signal.SIGALRM, outer_handler if outer_handler is not None else signal.SIG_DFL)
+            if outer_left > 0:
+                signal.setitimer(signal.ITIMER_REAL, max(0.05, outer_left))
         leftover = [i for i in range(nq) if T.vars[i]._is_bound]
         out.append({'answers': canon_answers(answers), 'count': n, 'end': end, 'leftover': leftover})
     return out
@@ -87,10 +111,20 @@ def impl(case):
     yp.load_script_from_string(text)
     return {'queries': run_queries(yp, case)}
 
-def model_expr(case):
+MODEL_NEEDS_IMPL = True
+
+def compared_queries(case, io):
+    """indices of the queries that are evaluated by the model: those whose search the implementation finished
+    within the budget and the answer cap (the model is evaluated eagerly inside Coq)"""
+    if not isinstance(io, dict) or 'queries' not in io:
+        return list(range(len(case['queries'])))
+    return [i for i, iq in enumerate(io['queries']) if iq['end'] not in ('cap', 'budget')]
+
+def model_expr(case, io=None):
     prog = ast_io.g_program(progs.number_anons(case['clauses']))
     qs = []
-    for q in case['queries']:
+    for qi in compared_queries(case, io):
+        q = case['queries'][qi]
         args, nq = query_terms(q)
         qs.append('(%s, %s, %s)' % (g_str(q[0]), g_list([g_term(a) for a in args]), g_nat(nq)))
     return '(run_both %d %s %s %d)' % (DEPTH, prog, g_list(qs), LIMIT)
@@ -112,7 +146,11 @@ def compare(case, io, mo):
     if 'rejected' in io:
         return 'the compiler rejected a generated program: %s %s' % (io['rejected'], io.get('msg'))
     views = model_views(mo)
-    for qi, (q, iq, (ir, sld)) in enumerate(zip(case['queries'], io['queries'], views)):
+    idx = compared_queries(case, io)
+    for qi, vs in zip(idx, views):
+        q, iq = case['queries'][qi], io['queries'][qi]
+        ir, sld = vs[0], vs[1]
+        sldr = vs[2] if len(vs) > 2 else None
         qtxt = ast_io.term_text(['fun', q[0], q[1]]) if q[1] else q[0]
         if ir.get('stuck'):
             return 'model compiler stuck'
@@ -128,13 +166,17 @@ def compare(case, io, mo):
             return 'query %s: implementation answers differ from the compiled-code model (impl %d answers, model %d)' % (qtxt, iq['count'], ir['count'])
         if ir['answers'] != sld['answers'] or ir['count'] != sld['count']:
             return 'query %s: compiled-code model and SLD reference differ (%d vs %d answers)' % (qtxt, ir['count'], sld['count'])
+        if sldr is not None and not sldr.get('err') and (ir['answers'] != sldr['answers'] or ir['count'] != sldr['count']):
+            return 'query %s: compiled-code model and renamed-apart SLD reference (SldR.solveR) differ (%d vs %d answers) - this contradicts a proved theorem: harness bug' % (qtxt, ir['count'], sldr['count'])
     return None
 
 def compare_parts(case, io, mo):
     """(impl_vs_ir, ir_vs_sld, impl_vs_sld) booleans: which pairs disagree (for classification)"""
     views = model_views(mo)
     a = b = c = False
-    for iq, (ir, sld) in zip(io.get('queries', []), views):
+    for qi, vs in zip(compared_queries(case, io), views):
+        iq = io['queries'][qi]
+        ir, sld = vs[0], vs[1]
         if ir.get('stuck') or ir.get('err') or sld.get('err'):
             continue
         if iq['answers'] != ir['answers'] or (iq['end'] == 'done' and iq['count'] != ir['count']): a = True
